@@ -40,6 +40,79 @@ def run(rep, prog, tier):
     reader_region(Retag(rep, "C10-R9"), prog)
     r10(rep, prog)
     r11(rep, prog)
+    r12(rep, prog)
+
+
+def r12(rep, prog):
+    """every living SegmentMeta protects its own files"""
+    from ..rules import natural_loop
+    R = "C10-R12"
+    rep.rule(R, "the living set is a union over ALL living metas: SegmentUpdater::list_files (what the garbage collector must keep) sends every element of Index::list_all_segment_metas() through SegmentMeta::list_files — as a flat_map / map over the whole vector or as a loop whose every iteration calls it — and nothing selects among the metas (filter, take, dedup, a map keyed by segment id, a max by delete opstamp). The same segment is legitimately alive at several delete opstamps (a running merge holds the metas it started from): the older meta is what protects `<seg>.<old opstamp>.del` until the merge has opened it")
+    fid = "tantivy::indexer::segment_updater::SegmentUpdater::list_files"
+    b = get_body(rep, prog, R, fid)
+    if b is None:
+        return
+    LAM = "tantivy::index::index::Index::list_all_segment_metas"
+    LF = "tantivy::index::index_meta::SegmentMeta::list_files"
+    SELECT = re.compile(r"Iterator::(filter|filter_map|take|skip|step_by|take_while|skip_while|find|find_map|max_by|max_by_key|min_by|min_by_key|last|nth|reduce|rev_dedup)$|::(dedup|dedup_by|dedup_by_key|retain|retain_mut|truncate|drain|split_off|swap_remove|pop)$|(HashMap|BTreeMap)::<.*>::(insert|entry|get|get_mut|remove)$|hash::map::HashMap<.*>::|Itertools::(unique|unique_by|dedup|dedup_by|max_set|min_set)")
+    bodies = [b] + [bb for n, bb in prog.bodies.items() if n.startswith(fid + "::{closure")]
+    lam = [bi for bi, t in b.calls() if (t.get("res") or t.get("f")) == LAM]
+    if not rep.check(len(lam) == 1, R, "list_files reads the inventory once", "one list_all_segment_metas() call", "cannot establish: SegmentUpdater::list_files calls list_all_segment_metas %d times" % len(lam), site=b.span):
+        return
+    sel = []
+    for bb in bodies:
+        for bi, t in bb.calls():
+            f = t.get("res") or t.get("f") or ""
+            f2 = t.get("f") or ""
+            if SELECT.search(f) or SELECT.search(f2):
+                sel.append((bb, bi, f2 or f))
+    rep.check(not sel, R, "nothing selects among the living metas", "%d bodies scanned" % len(bodies),
+              "SegmentUpdater::list_files passes the living SegmentMetas through `%s`: a meta that is dropped from the computation no longer protects its files. A segment can be alive at two delete opstamps at once "
+              "(the metas a running merge started from and the ones a later commit produced): the garbage collector then removes the older `.del` file before the merge has opened it" % (short(sel[0][2]) if sel else ""),
+              site=site(sel[0][0], sel[0][1]) if sel else b.span)
+    # form 1: adapter over the whole vector
+    ok_chain = False
+    for bi, t in b.calls():
+        f = t.get("f") or ""
+        if not re.search(r"Iterator::(flat_map|map|for_each)$", f):
+            continue
+        src = trace_back(b, op_local(t["args"][0])) if op_local(t["args"][0]) is not None else []
+        if not (src and src[-1][0] == "call" and re.search(r"IntoIterator>?::into_iter$|::iter$", src[-1][1])):
+            continue
+        it = b.term(src[-1][2])
+        src2 = trace_back(b, op_local(it["args"][0])) if op_local(it["args"][0]) is not None else []
+        if not (src2 and src2[-1][0] == "call" and src2[-1][1] == LAM):
+            continue
+        cl = trace_back(b, op_local(t["args"][1])) if len(t["args"]) > 1 and op_local(t["args"][1]) is not None else []
+        cb = prog.bodies.get(cl[-1][1]) if cl and cl[-1][0] == "agg" else None
+        if cb is None:
+            continue
+        lf = [Ev(x, "term") for x, tt in cb.calls() if (tt.get("res") or tt.get("f")) == LF]
+        if lf and not must_pass(cb, lf, exits="all"):
+            ok_chain = True
+    # form 2: a loop over the vector whose every iteration calls list_files
+    ok_loop = False
+    for bi, t in b.calls():
+        if not (t.get("f") or "").endswith("Iterator::next"):
+            continue
+        lp = natural_loop(b, bi)
+        if not lp:
+            continue
+        itl = op_local(t["args"][0])
+        lv = provenance(b, itl, extra_transparent=prog.names(r"IntoIterator>?::into_iter$")) if itl is not None else set()
+        if not any(x[0] == "call" and x[1] == LAM for x in lv):
+            continue
+        lfb = {x for x, tt in b.calls() if (tt.get("res") or tt.get("f")) == LF and x in lp}
+        if not lfb:
+            continue
+        # from the iteration's start back to the header without passing list_files?
+        succs = [x for x in b.succ(bi) if x in lp]
+        skip = any(bi in b.reachable((s_,), blocked=frozenset(lfb)) for s_ in succs if s_ not in lfb)
+        # the exit edge of the loop (None arm) also leaves through the header: only count paths that stay in the loop with a Some
+        ok_loop = ok_loop or not skip
+    rep.check(ok_chain or ok_loop, R, "every living meta reaches SegmentMeta::list_files", "flat_map / map over the whole inventory" if ok_chain else "loop form",
+              "cannot establish that SegmentUpdater::list_files sends every element of list_all_segment_metas() through SegmentMeta::list_files (neither an adapter over the whole vector whose closure always calls it, "
+              "nor a loop over the vector whose every iteration calls it)", site=b.span)
 
 
 def r10(rep, prog):
@@ -250,8 +323,8 @@ def r2(rep, prog):
         okm = any(("static", "tantivy::core::META_FILEPATH") in provenance(lf, op_local(t["args"][1]), extra_transparent=tuple(prog.names(r"Path::to_path_buf$"))) for b, t in ins)
         rep.check(okm, R, "list_files always includes meta.json", "insert(META_FILEPATH)", "SegmentUpdater::list_files does not insert META_FILEPATH: GC would delete meta.json", site=lf.span)
         cl = [prog.body(r) for r in prog.body_refs(lf) if "{closure" in r]
-        rep.check(any(c and any(t.get("f") == "tantivy::index::index_meta::SegmentMeta::list_files" for _, t in c.calls()) for c in cl), R,
-                  "list_files expands every tracked meta through SegmentMeta::list_files", "flat_map closure", "SegmentUpdater::list_files does not expand metas through SegmentMeta::list_files", site=lf.span)
+        rep.check(any(c and any(t.get("f") == "tantivy::index::index_meta::SegmentMeta::list_files" for _, t in c.calls()) for c in cl + [lf]), R,
+                  "list_files expands tracked metas through SegmentMeta::list_files", "in its body or a closure of it (that every meta is expanded: C10-R12)", "SegmentUpdater::list_files does not expand metas through SegmentMeta::list_files", site=lf.span)
     ab = get_body(rep, prog, R, "tantivy::index::index::Index::list_all_segment_metas")
     if ab is not None:
         rule_must_pass(rep, prog, R, ab.id, {"tantivy::index::index_meta::SegmentMetaInventory::all"}, "SegmentMetaInventory::all", exits="all")
